@@ -163,6 +163,38 @@ func checkC18(c *Ctx) {
 			inputs = append(inputs, robustInput{src, o})
 		}
 	}
+	for _, src := range []string{
+		"script S {\n    applymovement(1, moves())\n}\n",
+		"script S {\n    applymovement(1, moves(poryswitch(GAME) { RUBY {} _ { walk_up * 2 } }))\n}\n",
+		"script S {\n    applymovement(1, moves(poryswitch(GAME) { RUBY { walk_up } SAPPHIRE { walk_down } }))\n}\nmovement M {\n}\nmart N {\n}\n",
+		"text T {\n    format(\"Hello there world\", 100)\n}\n",
+		"script S {\n    msgbox(format(\"Hello there world\",\n        numLines=3, cursorOverlapWidth=2))\n}\n",
+		"text T {\n    format(\"Hello there world\", 100, \"nope\")\n}\n",
+		"mapscripts M {\n    MAP_SCRIPT_ON_LOAD {}\n    MAP_SCRIPT_ON_FRAME_TABLE [\n        VAR_A, 0 {}\n    ]\n}\n",
+	} {
+		for _, o := range optSets(genAutoVar()) {
+			inputs = append(inputs, robustInput{src, o})
+		}
+	}
+	// well-formed programs of the TLC-enumerated families: they must be answered promptly too
+	if sw, ok := cachedGenModule(c, "GenSwitch", map[string]int{"MaxCases": 3}, "switches.ndjson"); ok {
+		for i, ln := range sw["switches.ndjson"] {
+			if c.Quick() && (int64(i)+c.Seed)%3 != 0 {
+				continue
+			}
+			var f swFam
+			if jsonUnmarshal([]byte(ln), &f) != nil {
+				continue
+			}
+			p := swProgram(fmt.Sprintf("W%d", i), &f)
+			inputs = append(inputs, robustInput{RenderProg(p, Style{R: r}), Opts{Optimize: i%2 == 0}})
+		}
+	}
+	if ctl, ok := cachedGenModule(c, "GenCtl", map[string]int{"Level": 2}, "one.ndjson", "nest.ndjson"); ok {
+		for i, p := range ctlPrograms(c, ctl["one.ndjson"], "rb", 1, 0) {
+			inputs = append(inputs, robustInput{RenderProg(p, Style{R: r}), Opts{Optimize: i%2 == 0}})
+		}
+	}
 	// a few long / deep inputs (prompt termination and bounded growth)
 	deep := strings.Repeat("if (flag(A)) { ", 400) + "x" + strings.Repeat(" }", 400)
 	inputs = append(inputs,
